@@ -160,7 +160,7 @@ AnswersAgree(r) ==
 CodeUser(r) == IF r.place = "query" THEN "" ELSE r.user
 CodePass(r) == IF r.place = "query" THEN "" ELSE r.pass
 ExpectAttached(r) ==
-    /\ r.mode # "http"
+    /\ r.mode \notin {"http", "cdn"}     \* (cdn: media is served to sessions only, and no session was opened)
     /\ OracleAdmit(r.action, r.cls, CodeUser(r), CodePass(r), r.ip)
     /\ ~(r.action = "publish" /\ r.reload \in {"nonhot", "hot", "rehome"})
 \* layer 1: the handler asks the manager for exactly the scenario's action, path, IP and the credentials it reads
@@ -179,13 +179,14 @@ ReloadsAsExpected(r) ==
 \* mode: std  a real client of the protocol
 \*       http (webrtc) a WHIP / WHEP POST without a usable offer: the decision side only
 \*       full (webrtc) the repository's WHIP client over loopback ICE
+\*       cdn  (hls)    media requested directly while the path's CDN session exists
 Protos == {"rtsp", "rtmp", "srt", "hls", "pm", "webrtc", "moq"}
 CredTok == {"alice", "puba", "reader", "dave", "bad", "none"}
 UserOf(c) == IF c = "none" THEN "" ELSE IF c = "bad" THEN "alice" ELSE c
 PassOf(c) == IF c = "none" THEN "" ELSE IF c = "bad" THEN "wrong" ELSE "pw"
 HTTPProtos == {"hls", "webrtc"}            \* behind the trusted proxy: the client IP is the forwarded one
 Scenarios ==
-    {x \in [proto : Protos, mode : {"std", "http", "full"}, place : {"native", "basic", "bearer", "query"},
+    {x \in [proto : Protos, mode : {"std", "http", "full", "cdn"}, place : {"native", "basic", "bearer", "query"},
             action : Actions, cred : CredTok, cls : {"a", "b"},
             reload : {"none", "other", "nonhot", "hot", "rehome"}, ip : {"127.0.0.1", "10.0.0.5", "10.0.0.50", "10.0.1.5"},
             proxy : {"trusted", "none"}] :
@@ -196,7 +197,11 @@ Scenarios ==
         /\ (x.proxy = "none" => x.proto \in HTTPProtos)
         /\ (x.proto \in HTTPProtos /\ x.proxy = "trusted" <=> x.ip # "127.0.0.1")
         /\ (x.proxy = "none" /\ x.mode = "http" => x.place = "basic")
-        /\ (x.proto = "webrtc" <=> x.mode # "std")
+        /\ (x.proto = "webrtc" <=> x.mode \in {"http", "full"})
+        \* cdn (hls): a CDN that holds the configured hlsCDNSecret has pulled <path>/index.m3u8 (its session
+        \* exists); the client skips index.m3u8 and asks for a media playlist and a segment directly, with its
+        \* own credentials at most. "Becomes a reader" = is served the path's media.
+        /\ (x.mode = "cdn" => x.proto = "hls" /\ x.cred \in {"none", "bad", "alice"} /\ x.cls = "a" /\ x.proxy = "trusted")
         /\ (x.proto = "webrtc" <=> x.place # "native")
         /\ (x.mode = "full" => x.place = "basic")
         /\ (x.place \in {"bearer", "query"} => x.cls = "a")
